@@ -76,9 +76,9 @@ theorem wrapProcess_enc_spec (hL : LibEncContract L b Dec) {s : τ} {x y : Bytes
   · rintro ⟨st, inp', room', ai, ao⟩ ⟨hai, hinp, hao, hroom, f, hRf, hf1, hf2, hprog⟩
     simp only at hai hinp hao hroom hRf hf1 hf2 hprog
     have hPf : Proto f fl inp' := by
-      intro hf
+      refine ⟨hP.1, fun hf => ?_⟩
       rcases hf1 hf with h | ⟨h1, h2⟩
-      · obtain ⟨h1, h2⟩ := hP h
+      · obtain ⟨h1, h2⟩ := hP.2 h
         exact ⟨h1, by rw [hinp, h2]; simp⟩
       · exact ⟨h1, by rw [hinp, h2]; simp⟩
     by_cases hcond : ((decide (0 < inp'.length) || decide (fl = Flush.full)) && decide (0 < room')) = true
@@ -303,7 +303,7 @@ def encLibContract (P : Params) (b : Backend) : LibEncContract (encLib P b) b de
       · rename_i hc
         simp only [Bool.and_eq_true, encFin, Bool.or_eq_true, decide_eq_true_eq] at hc
         rcases hc.1 with h | h
-        · exact (hP (hR.2 h)).1
+        · exact (hP.2 (hR.2 h)).1
         · exact h.1
       · cases hend
     rw [h2, h3]
